@@ -60,17 +60,17 @@ CHECKS = {
    text="At every (quick: every k-th) idle point of a normal 2-/3-party run one stray command is injected at each party (duplicate schedule, run, consts, validate, mpc_msg with out-of-range sender, mpc_msg before scheduling). Commands that are invalid in every state the actor can be in (decided from the RPC history) must be answered Err; no actor may panic; the computation must still satisfy the C13 oracle.",
    note="Commands whose validity is ambiguous at the injection point are judged for 'no panic' only. The HTTP layer (api.rs) is driven by the second crate httpx with wall-clock timing: verdicts only on HTTP answers and on results that arrived; a result missing after 60 s is inconclusive."),
  "C15": dict(level="fault_enumeration", ref="DESIGN.md §3 C15", engine="pv-server",
-   technique="runtime monitoring with cancel injection after every event (incl. while the compile thread is alive); ordering of cancel() completion vs output() calls, actor state and permits at quiescence",
+   technique="runtime monitoring with cancel injection after every event (incl. while the compile thread is alive); ordering of cancel() completion vs output() calls, actor state and permits at quiescence; plus real polytune-http-server instances cancelled through Cancel::cancel() with a timestamping output receiver",
    text="cancel() is injected at every idle point on each party with gated and ungated MPC messages, while the compile thread of a heavier program is alive, after a stray (rejected) command, together with a consts call that later fails, and on a multi-thread runtime after k*0.7 ms. If it returned Ok: the actor has stopped, a scheduled party with a destination got exactly one notification (Cancelled or the real result), none after cancel returned, and the party's permit is back.",
-   note="Exact mode: current-thread runtime with paused clock. Stress mode: multi-thread runtime with real sub-millisecond delays, judged only at quiescence before a 60 s watchdog (else inconclusive). cancel() returning Err is outside the property and only counted."),
+   note="Exact mode: current-thread runtime with paused clock. Stress mode: multi-thread runtime with real sub-millisecond delays, judged only at quiescence before a 60 s watchdog (else inconclusive). cancel() returning Err is outside the property and only counted. HTTP layer (server.rs / api.rs, crate httpx, mode c15): wall-clock timing; Cancel::cancel() not returning within 30 s is inconclusive."),
  "C16": dict(level="exploration", ref="DESIGN.md §3 C16", engine="pv-server",
    technique="runtime monitoring: incompatible policies driven through scripted and random arrival/delivery orders; schedule results, outputs and msg() call counter observed",
    text="Program or leader mismatch at each single follower and ill-typed programs at each party, n in {2,3}, every leader, validate before and after the follower's schedule: the schedule calls of that follower and of the leader end with an error, no Ok result is delivered anywhere and the client's msg() counter stays 0.",
    note="Two self-declared leaders are out of scope as stated in the property."),
  "C17": dict(level="fault_enumeration", ref="DESIGN.md §3 C17", engine="pv-server",
-   technique="runtime monitoring with RPC fault injection: batches of policies under random delivery orders, one failed validate/run/consts RPC, cancels; overlap of leader run intervals from RPC-level observations, permits and actor state at quiescence",
+   technique="runtime monitoring with RPC fault injection: batches of policies under random delivery orders, one failed validate/run/consts RPC, cancels; overlap of leader run intervals from RPC-level observations, permits and actor state at quiescence; plus real polytune-http-server instances behind a logging / failing HTTP proxy with barrier-style control computations",
    text="Batches of 1..8 policies with concurrency 1..3, mixed leaders and destinations; one RPC failure and/or a cancel is injected. Per leader the overlap of [first run RPC issued .. last activity] never exceeds the concurrency; after a failed call the caller's actor has stopped with exactly one error notification (or a failed schedule for validate); when all of a party's policies have ended its whole budget is available.",
-   note="Peers of a failed or cancelled policy that keep waiting have not 'ended' and are outside the property; they are visible in the evidence."),
+   note="Peers of a failed or cancelled policy that keep waiting have not 'ended' and are outside the property; they are visible in the evidence. HTTP layer (api.rs, crate httpx, mode c17): wall-clock timing; a verdict needs a control computation led by the other server to finish, otherwise the scenario is inconclusive."),
  "C18": dict(level="exploration", ref="DESIGN.md §3 C18",
    technique="runtime monitoring: counting channel (operations attempted before return) and panic capture on an enumerated list of invalid arguments",
    text="Every documented-invalid value of each mpc argument and circuit descriptions whose counters disagree with their instructions, used by one party or all parties, n in {2,3}: the call must return Err with 0 channel operations and never panic; a repeated output index must be rejected like that or behave as the de-duplicated set; inconsistent counters must only never panic.",
